@@ -24,10 +24,16 @@ import (
 	"github.com/zenon-network/go-zenon/p2p"
 	"github.com/zenon-network/go-zenon/p2p/discover"
 	"github.com/zenon-network/go-zenon/protocol"
-	"github.com/zenon-network/go-zenon/protocol/downloader"
 )
 
 const probeCode = 127 // never used by a test message
+
+// the limits C15 states: 10 MiB per message, 512 hashes and 128 momentums per reply
+const (
+	stmtMaxMsgSize = 10 * 1024 * 1024
+	stmtMaxHashes  = 512
+	stmtMaxBlocks  = 128
+)
 
 // same RLP shape as protocol.statusData / getBlockHashesData / getBlockHashesFromNumberData
 type hsStatus struct {
@@ -53,6 +59,7 @@ type p2pRun struct {
 	netId    uint64
 	genesis  types.Hash
 	nextPeer uint64
+	hangs    int
 	byHash   map[types.Hash]uint64
 	hashes   []types.Hash // index = height-1
 	blocks   []*nom.AccountBlock
@@ -149,8 +156,9 @@ func (r *p2pRun) session(first *p2p.Msg, test *p2p.Msg) *sessionResult {
 			}
 			continue
 		}
-		// asynchronous broadcasts of the node are not answers
-		if m.code == protocol.TxMsg || m.code == protocol.NewBlockMsg || m.code == protocol.NewBlockHashesMsg || m.code == protocol.GetBlocksMsg {
+		// answers are BlockHashesMsg / BlocksMsg; everything else the node sends on its own (transaction and block
+		// broadcasts, the downloader/fetcher asking this peer for hashes or blocks after a NewBlock announcement)
+		if m.code != protocol.BlockHashesMsg && m.code != protocol.BlocksMsg {
 			r.c.Hit("async-msg-ignored")
 			continue
 		}
@@ -689,8 +697,8 @@ func init() {
 			if res.panicked != nil || res.hang {
 				c.Fail("C15 handshake %s: %s (%v)", hc.name, obs, firstLine(fmt.Sprint(res.panicked)))
 			}
-			if size > protocol.ProtocolMaxMsgSize && obs == "ok" {
-				c.Fail("C15 handshake accepted a status message of declared size %d > %d", size, protocol.ProtocolMaxMsgSize)
+			if size > stmtMaxMsgSize && obs == "ok" {
+				c.Fail("C15 handshake accepted a status message of declared size %d > %d", size, stmtMaxMsgSize)
 			}
 		}
 
@@ -708,6 +716,10 @@ func init() {
 				code, size, pay, label = r.genMessage()
 			}
 			r.oneMessage(code, size, pay, label)
+			if r.hangs >= 3 {
+				c.Fail("C15 class=hang stream stopped after %d sessions that neither answered nor disconnected", r.hangs)
+				return
+			}
 			if i%40 == 39 {
 				r.goodPeerCheck()
 			}
@@ -801,17 +813,19 @@ func (r *p2pRun) oneMessage(code uint64, size uint32, pay []byte, label string) 
 	}
 	if res.hang {
 		c.Fail("C15 class=hang no answer and no disconnect within 20s on %s", desc)
+		r.hangs++
 	}
-	if kind == "hashes" && items > downloader.MaxHashFetch {
-		c.Fail("C15 class=reply-over-cap reply carries %d hashes > %d on %s", items, downloader.MaxHashFetch, desc)
+	// the limits are the statement's numbers, not the tree's constants
+	if kind == "hashes" && items > stmtMaxHashes {
+		c.Fail("C15 class=reply-over-cap reply carries %d hashes > %d on %s", items, stmtMaxHashes, desc)
 	}
-	if kind == "blocks" && items > downloader.MaxBlockFetch {
-		c.Fail("C15 class=reply-over-cap reply carries %d momentums > %d on %s", items, downloader.MaxBlockFetch, desc)
+	if kind == "blocks" && items > stmtMaxBlocks {
+		c.Fail("C15 class=reply-over-cap reply carries %d momentums > %d on %s", items, stmtMaxBlocks, desc)
 	}
-	if size > protocol.ProtocolMaxMsgSize && obs != "err toolarge" {
-		c.Fail("C15 class=size-gate message of declared size %d > %d was not refused as too large: %s on %s", size, protocol.ProtocolMaxMsgSize, obs, desc)
+	if size > stmtMaxMsgSize && obs != "err toolarge" {
+		c.Fail("C15 class=size-gate message of declared size %d > %d was not refused as too large: %s on %s", size, stmtMaxMsgSize, obs, desc)
 	}
-	if code >= 9 && code != probeCode && size <= protocol.ProtocolMaxMsgSize && obs != "err badcode" {
+	if code >= 9 && code != probeCode && size <= stmtMaxMsgSize && obs != "err badcode" {
 		c.Fail("C15 class=unknown-code unknown code was not refused: %s on %s", obs, desc)
 	}
 	if strings.HasPrefix(obs, "multiple") || strings.HasPrefix(obs, "unexpected") || strings.HasPrefix(obs, "undecodable") {
